@@ -10,7 +10,7 @@ CONSTANTS Worlds <- WorldsAll
           MaxTrunc = 0
           TruncBack = {}
           Depth = 0
-          Nows = {5, 8, 9, 12, 13, 16, 19}
+          Nows = {5, 9, 12, 13, 16}
           Backs = {0, 1, 3}
 INIT CInit
 NEXT EvalGen
